@@ -227,6 +227,15 @@ func (g *dgen) intFor(t *tdesc) *node {
 }
 
 func (g *dgen) floatFor(t *tdesc) *node {
+	if t.bits == 32 && g.r.Chance(0.15) {
+		// a float64 that lies exactly half-way between two adjacent float32 values (such a value
+		// is a float64, hence representable in all three formats): its shortest decimal spelling
+		// is usually not exactly the midpoint, so parsing the text with 32 bits and rounding the
+		// parsed float64 to float32 may disagree
+		x := float32(0.5 + g.r.Float64()*1000)
+		y := math.Nextafter32(x, float32(math.Inf(1)))
+		return &node{k: nFloat, f: (float64(x) + float64(y)) / 2}
+	}
 	switch g.r.Pick(6, 3, 2) {
 	case 0:
 		f := kit.Choose(g.r, floatPool)
